@@ -118,6 +118,21 @@ Theorem C17_recv_program_partial :
     (exists used, o = used ++ o' /\ spec_read_outcomes spec_read_class used = ready_outcomes tr).
 Proof. exact recv_program_ok. Qed.
 
+(* after a FAILED read (peer reset, connection closed, timed out ...) the Quinn stream is back in `self.stream`:
+   the error has its class, the stream can be polled again without panic whatever Quinn answers next, recv_id
+   still answers the id, and a stop_sending is delivered at once (nothing parked).  Together with
+   C17_recv_program_partial (whose invariant holds in EVERY reachable state, after errors too) *)
+Theorem C17_reread_after_failed_read :
+  forall id r e o, recv_inv id r -> e <> QRIllegalOrderedRead ->
+    exists cls r2 q2,
+      poll_data (RFail e :: o) r = (Ready (Err cls), r2, o) /\ spec_read_class e = Some cls /\
+      r_stream r2 = Some q2 /\ r_pending_stop r2 = None /\ recv_inv id r2 /\ recv_id r2 = Ok id /\
+      (forall c, c <= varint_max ->
+         stop_sending c r2 = (Ok tt, {| r_id := r_id r2; r_stream := Some (q_stop c q2); r_fut := r_fut r2; r_pending_stop := None |})) /\
+      (forall a o', a <> RFail QRIllegalOrderedRead ->
+         exists x r3 o3, poll_data (a :: o') r2 = (x, r3, o3) /\ poll_not_panic x /\ recv_inv id r3 /\ recv_id r3 = Ok id).
+Proof. exact after_failed_read. Qed.
+
 (* the state the repaired recv_id exists for is reachable, and recv_id answers there *)
 Theorem C17_recv_id_while_read_pending :
   forall id o, id <= varint_max ->
@@ -250,6 +265,7 @@ Print Assumptions C17_poll_send_exact_partial.
 Print Assumptions C17_overlapping_send_refused.
 Print Assumptions C17_send_id_constant.
 Print Assumptions C17_recv_program_partial.
+Print Assumptions C17_reread_after_failed_read.
 Print Assumptions C17_recv_id_while_read_pending.
 Print Assumptions C17_bidi_ids_agree.
 Print Assumptions C17_connection_error_classes.
